@@ -411,6 +411,19 @@ func (g *histGen) run(nEvents int) {
 			}
 			g.stepPush(ref, true, false, same)
 			g.stepPush(ref, r.Chance(85), false, nil)
+		case x < 97 && g.opts.globalRules:
+			// a history rewrite that is later revoked, then a block-force-pushes rule starts to cover
+			// the reference, then a push on top of the revoked rewrite
+			if _, ok := g.tipOf[ref]; !ok {
+				g.stepPush(ref, true, false, nil)
+			}
+			fe := g.stepPush(ref, true, true, nil) // fresh root: a rewrite
+			g.b.Annotate([]int{fe}, true, g.pickSigner(ref, true))
+			np := g.genPolicy(&g.pol)
+			np.Root.GlobalRules = append(np.Root.GlobalRules, GlobalRuleSpec{Name: "g-late-bfp", Kind: "block-force-pushes", Patterns: []string{"git:" + ref}})
+			g.pol = np
+			g.b.AddPolicy(g.pol, r.Bool())
+			g.stepPush(ref, true, false, nil) // child of the revoked rewrite
 		default:
 			g.stepPush(ref, false, r.Chance(20), nil)
 		}
